@@ -20,6 +20,7 @@ import (
 	"fmt"
 	"os"
 	"regexp"
+	"strings"
 	"sync"
 	"time"
 
@@ -34,6 +35,9 @@ type Case struct {
 	Src      string `json:"src"` // informational (src_b64 is authoritative)
 	Expected string `json:"expected,omitempty"`
 	Stream   string `json:"stream,omitempty"`
+	// Reject: the text is outside the grammar by construction (a reason independent of the scanner's
+	// own error reporting): it must not be accepted
+	Reject string `json:"reject,omitempty"`
 }
 
 func (c Case) src() []byte {
@@ -180,6 +184,9 @@ func (h *harness) prepare(c Case) *prepared {
 			p.fail = &failure{"property", "accept-outside", "ParseValue accepts a text that does not start with a Value"}
 		}
 	}
+	if c.Reject != "" && r.Accept && p.fail == nil {
+		p.fail = &failure{"property", "accept-outside", "a text outside the grammar (" + c.Reject + ") is accepted without error: " + clip(r.Obs)}
+	}
 	if c.Expected != "" && p.fail == nil && !excused {
 		want := "(ret " + c.Expected + " ())"
 		if r.Obs != want {
@@ -264,11 +271,14 @@ type genCase struct {
 	seed   uint64
 	class  int
 	stream string
+	reject string // raw texts that are outside the grammar by construction (not shrunk: a shorter text need not be)
 }
 
 func (g *genCase) build() Case {
 	if g.raw != nil || (g.tree == nil && g.lex == nil) {
-		return mkCase(g.mode, g.raw, "", g.stream)
+		c := mkCase(g.mode, g.raw, "", g.stream)
+		c.Reject = g.reject
+		return c
 	}
 	lex := g.lex
 	if g.tree != nil {
@@ -287,6 +297,9 @@ func (g *genCase) build() Case {
 
 func (g *genCase) shrinks() []*genCase {
 	var out []*genCase
+	if g.reject != "" {
+		return nil
+	}
 	if g.raw != nil {
 		rs := []rune(string(g.raw))
 		for i := range rs {
@@ -417,6 +430,12 @@ var insertPool = []Lex{
 	nameLex("on"), nameLex("fragment"), nameLex("query"), nameLex("mutation"), nameLex("subscription"),
 	nameLex("true"), nameLex("null"), nameLex("a"), nameLex("T"),
 	{'i', "0", "0"}, {'f', "1.5", "1.5"}, {'s', "s", `"s"`},
+	// strings whose value is a punctuator or a keyword: a parser that looks at the value of a token
+	// without its kind takes them for the real thing
+	{'s', "]", `"]"`}, {'s', "}", `"}"`}, {'s', ")", `")"`}, {'s', "]", `"""]"""`}, {'s', "}", `"""}"""`},
+	{'s', ":", `":"`}, {'s', "{", `"{"`}, {'s', "[", `"["`}, {'s', "(", `"("`}, {'s', "@", `"@"`}, {'s', "$", `"$"`},
+	{'s', "=", `"="`}, {'s', "!", `"!"`}, {'s', "...", `"..."`}, {'s', "on", `"on"`}, {'s', "fragment", `"fragment"`},
+	{'s', "query", `"query"`}, {'s', "true", `"true"`}, {'s', "null", `"null"`},
 }
 
 func mutate(lex []Lex, r *hx.Rand) ([]Lex, string) {
@@ -458,6 +477,41 @@ func (h *harness) fixedCases(b *batcher) {
 	}
 	for _, s := range []string{"", "1", "-1.5e3", "\"s\"", "true", "null", "E", "$v", "$", "[", "[]", "[1", "{}", "{a}", "{a:1}", "{a:1", "[[[]]]", "1 2", "!", "]", "[$v {a:$w}]"} {
 		b.add(&genCase{mode: "value", raw: []byte(s), stream: "fixed"})
+	}
+	b.flush()
+}
+
+// pickProfile: the rich alphabet, one time in five with punctuator- and keyword-valued strings only.
+func pickProfile(r *hx.Rand) *profile {
+	if r.Chance(1, 5) {
+		return &richPunctStrings
+	}
+	return &rich
+}
+
+// badEscapes: quoted strings with a \u escape in which one of the four digit positions holds a character
+// that is no hexadecimal digit — every ASCII character that is none (control characters included: some
+// differ from a digit or a letter in one bit only) and look-alikes from other scripts. Outside the
+// grammar whatever the scanner says about it.
+func (h *harness) badEscapes(b *batcher) {
+	var cands []rune
+	for c := rune(0); c < 0x80; c++ {
+		if !strings.ContainsRune("0123456789abcdefABCDEF", c) {
+			cands = append(cands, c)
+		}
+	}
+	cands = append(cands, 0xb2, 0x130, 0x131, 0x17f, 0x430, 0x435, 0x660, 0x6f0, 0x966, 0x2070, 0x2080, 0x212a, 0x2460, 0xff10, 0xff21, 0xff41, 0xff46)
+	for _, base := range []string{"00e9", "ABCD", "0041"} {
+		for i := 0; i < 4; i++ {
+			for _, c := range cands {
+				esc := base[:i] + string(c) + base[i+1:]
+				why := fmt.Sprintf("\\u escape with %U in digit position %d", c, i+1)
+				b.add(&genCase{mode: "doc", raw: []byte(`{f(s:"a\u` + esc + `b")}`), stream: "bad-escape", reject: why})
+				if base == "00e9" {
+					b.add(&genCase{mode: "value", raw: []byte(`["\u` + esc + `"]`), stream: "bad-escape", reject: why})
+				}
+			}
+		}
 	}
 	b.flush()
 }
@@ -531,6 +585,7 @@ func main() {
 		}
 	}
 	h.fixedCases(b)
+	h.badEscapes(b)
 
 	// (B) bounded-exhaustive documents and (C) values over the tiny alphabet
 	exhaust := func(mode string, budget int, make func(g *gen) *T, limit int) int {
@@ -568,7 +623,7 @@ func main() {
 	nRand := run.Scale(1500, 40000)
 	for i := 0; i < nRand; i++ {
 		r := run.Rand.Fork()
-		g := &gen{c: randChooser{r}, budget: r.Range(3, run.Scale(90, 250)), p: &rich}
+		g := &gen{c: randChooser{r}, budget: r.Range(3, run.Scale(90, 250)), p: pickProfile(r)}
 		t := g.document()
 		countTags(t, run)
 		seed := r.Uint64()
@@ -601,7 +656,7 @@ func main() {
 	nMut := run.Scale(6000, 150000)
 	for i := 0; i < nMut; i++ {
 		r := run.Rand.Fork()
-		g := &gen{c: randChooser{r}, budget: r.Range(1, 30), p: &rich}
+		g := &gen{c: randChooser{r}, budget: r.Range(1, 30), p: pickProfile(r)}
 		e := &emitter{spell: r.Fork()}
 		e.emit(g.document())
 		lex, op := mutate(e.lex, r)
@@ -633,7 +688,7 @@ func main() {
 	nVal := run.Scale(2500, 50000)
 	for i := 0; i < nVal; i++ {
 		r := run.Rand.Fork()
-		g := &gen{c: randChooser{r}, budget: r.Range(1, 40), p: &rich}
+		g := &gen{c: randChooser{r}, budget: r.Range(1, 40), p: pickProfile(r)}
 		t := g.value(false)
 		seed := r.Uint64()
 		if i%3 != 2 {
